@@ -25,7 +25,9 @@
      the fold-in seen through the public interface only (history in, embedding out)
         -> foldin_public_view
    * "scores are embedding dot products plus the applicable bias terms"
-        -> score_is_dot_plus_bias, score_is_dot_implicit
+        -> score_is_dot_plus_bias, score_is_dot_implicit; the user bias that applies when a history is folded
+           in is the one derived from that history, 0 included, never the stored one
+        -> history_bias_applies, fold_query_ignores_stored_bias, zero_history_bias_scores
    * "FunkSVD training equals feature-by-feature stochastic gradient descent over the seeded
      sample order with the documented update rule, learning rate, regularisation, range clamping
      and trailing-feature estimate"
@@ -239,6 +241,52 @@ Theorem score_is_dot_implicit : forall vocab k items u cands,
       end.
 Proof. exact Proofs.C10_als_proofs.score_is_dot_implicit. Qed.
 Print Assumptions score_is_dot_implicit.
+
+(* "... plus the APPLICABLE bias terms": when a history is folded in, the user bias that applies is the one derived
+   from that history (the embedding was solved against ratings normalised with it) -- whatever its value.  It does
+   not read the biases stored in training; it is exactly 0 when the history's residuals r - b_g - b_i cancel; and a
+   query that folds its history in is judged (query_ok_explicit, evaluated on every such generated query, among them
+   histories solved for a bias of exactly 0 presented for a known user whose stored bias is not 0) without the stored
+   user biases being read at all. *)
+Theorem history_bias_applies : forall b bu d vocab h,
+  applicable_user_bias b d vocab UFold h = foldin_user_bias b d vocab h /\
+  foldin_user_bias (with_user_bias b bu) d vocab h = foldin_user_bias b d vocab h /\
+  (Qsum (hist_residuals b vocab h) == 0 -> applicable_user_bias b d vocab UFold h == 0).
+Proof. exact history_bias_applies_l. Qed.
+Print Assumptions history_bias_applies.
+
+Theorem fold_query_ignores_stored_bias : forall tol tolb k lam ivocab items P b bu d prefer un h cands fold obs,
+  user_path prefer (is_some P) un (length h) = UFold ->
+  query_ok_explicit tol tolb k lam ivocab items P (with_user_bias b bu) d prefer un (Some h) cands fold obs =
+  query_ok_explicit tol tolb k lam ivocab items P b d prefer un (Some h) cands fold obs.
+Proof. exact fold_query_ignores_stored_bias_l. Qed.
+Print Assumptions fold_query_ignores_stored_bias.
+
+Theorem zero_history_bias_scores : forall vocab k items b d h u cands,
+  applicable_user_bias b d vocab UFold h == 0 ->
+  forall j i n, nth_error cands j = Some i -> number vocab i = Some n ->
+    exists s, nth_error (score_explicit vocab k items b u (applicable_user_bias b d vocab UFold h) cands) j = Some (i, Some s) /\
+              s == C10_als.dot (nth n items (vzero k)) u + (b_global b + nth n (b_item b) 0).
+Proof. exact zero_history_bias_scores_l. Qed.
+Print Assumptions zero_history_bias_scores.
+
+(* non-vacuity of the three statements above: user 0 has a stored bias of 3/4; the history rates the known item 100
+   half a star above its baseline 7/2 + 1/4 and an unknown item half a star below the global mean, so the residuals
+   cancel; the query check accepts scores formed with bias 0 and rejects the same scores shifted by the stored 3/4. *)
+Example c10_zero_history_bias :
+  let b := {| b_global := 7 # 2; b_item := [1 # 4; 0]; b_user := [3 # 4] |} in
+  let vocab := [100%Z; 101%Z] in
+  let h : hist := [(100%Z, 17 # 4); (900%Z, 3)] in
+  let items : mat := [[1]; [2]] in
+  (* row: item 0 with normalised rating 17/4 - (7/2 + 1/4 + 0) = 1/2; A = 1 + (1/2)*1, y = 1/2, x = 1/3 *)
+  let fold := Some ([(0%nat, 1 # 2)], [1 # 3]) in
+  Qsum (hist_residuals b vocab h) == 0 /\
+  user_path false true (Some 0%nat) (length h) = UFold /\
+  query_ok_explicit 0 0 1 (1 # 2) vocab items (Some [[5]]) b 5 false (Some 0%nat) (Some h) [101%Z; 950%Z] fold
+    [(101%Z, Some ((2 # 3) + (7 # 2))); (950%Z, None)] = true /\
+  query_ok_explicit 0 0 1 (1 # 2) vocab items (Some [[5]]) b 5 false (Some 0%nat) (Some h) [101%Z; 950%Z] fold
+    [(101%Z, Some ((2 # 3) + (7 # 2) + (3 # 4))); (950%Z, None)] = false.
+Proof. cbv zeta. repeat split; vm_compute; reflexivity. Qed.
 
 (* ------------------------------------------------------------------------------------------ *)
 (* FunkSVD.  `train` is the transcription of the array-updating loops; `train_cols` trains one
